@@ -1288,18 +1288,17 @@ func (r *Redis) Ping() bool {
 
 // PingCtx 检测 redis 服务是否启动。
 func (r *Redis) PingCtx(ctx context.Context) (val bool) {
-	// 忽略错误，错误意为未启动
+	// 对调用方忽略错误（错误意为未启动），但错误仍要交给断路器，
+	// 否则连接失败的 Ping 会被断路器记为一次成功。
 	_ = r.brk.DoWithAcceptable(func() error {
 		node, err := getRedis(r)
 		if err != nil {
-			val = false
-			return nil
+			return err
 		}
 
 		v, err := node.Ping(ctx).Result()
 		if err != nil {
-			val = false
-			return nil
+			return err
 		}
 
 		val = v == "PONG"
